@@ -34,7 +34,7 @@ ASSUMPTIONS = [
 ]
 PROBES = ["completed_by_software_rstack", "nonsoftware_rstack_during_reset", "error_during_reset", "timeout_exact", "tie_at_deadline",
           "rstack_before_request", "rstack_twice", "reply_duplicated_in_one_read", "reset_with_queued_send", "late_rstack_after_timeout", "loss_while_reset_pending", "loss_while_startup_pending",
-          "eof_while_pending", "close_while_pending", "data_frame_unacknowledged_at_loss", "both_waiters_pending_at_loss", "data_frame_unacknowledged_when_handshake_completes", "transport_closed_underneath", "retry_after_timeout", "joined_existing_reset", "counters_nonzero_before", "sched.batch", "sched.reorder"]
+          "eof_while_pending", "close_while_pending", "data_frame_unacknowledged_at_loss", "both_waiters_pending_at_loss", "data_frame_unacknowledged_when_handshake_completes", "transport_closed_underneath", "retry_after_timeout", "joined_existing_reset", "joined_reset_unanswered", "counters_nonzero_before", "sched.batch", "sched.reorder"]
 
 SW = R.RESET_SOFTWARE
 ARRIVALS = ("before", "now", "mid", "deadline", "after", "twice", "never", "double")
@@ -81,6 +81,7 @@ def plan(tier):
     for seqs in (("never", "now"), ("never", "never"), ("after", "now"), ("now", "now")):
         sweeps.append(("chain", {"arrivals": list(seqs), "sched": False}))
     sweeps.append(("join", {"sched": False}))
+    sweeps.append(("join", {"sched": False, "never": True}))
     for tx in range(8):
         # (ACK and RSTACK in ONE read: with two reads the queued send may legitimately go out, still in the old numbering, between them)
         sweeps.append(("queued", {"tx": tx, "rx": (tx * 3) % 8, "together": True, "sched": False}))
@@ -630,6 +631,17 @@ def run_chain(scenario, params, tape, detail=False):
             a = loop.create_task(request(cell, "reset", r1))
             await asyncio.sleep(0.2)
             b = loop.create_task(request(cell, "reset", r2))
+            if params.get("never"):
+                # no RSTACK at all: BOTH requests raise a timeout when the reset timeout (of the request that wrote the RST) has passed
+                await asyncio.sleep(7.0)
+                probe("joined_reset_unanswered")
+                for nm, rr in (("first", r1), ("second (joined the first)", r2)):
+                    o = rr.get("outcome")
+                    if o is None or o[0] != "raised" or not isinstance(o[1], TimeoutError) or abs(o[2] - (r1["t_req"] + 5.0)) > 1e-6:
+                        viol.append(("C11.timeout", "joined-request", f"two concurrent reset() calls, no RSTACK: the {nm} request ended {o and o[0]} "
+                                     f"{o and type(o[1]).__name__} at t={o and round(o[2], 4)} (expected TimeoutError at t={r1['t_req'] + 5.0:.4f})"))
+                descs.append(("join-never", [rr.get("outcome") and type(rr["outcome"][1]).__name__ for rr in (r1, r2)]))
+                return
             t_rep = loop.time() + 0.3
             rig.peer_send(R.f_rstack(SW), at=t_rep)
             await asyncio.sleep(6.0)
